@@ -205,16 +205,21 @@ def container_dup(ctx):
     """The container modules carry the same A/B-slot Dup actions; their smallest scopes are replayed here too (every
     reachable state incl. empty containers and NULL placeholders is dup'ed, then either side mutated/emptied/deleted)."""
     from checks import c02, c03, c04
-    runs = [("MC_ListSeq.tla", "ListSeq_c05.cfg", c02, lambda cls: [cls], "list"),
-            ("MC_MapDict.tla", "MapDict_c05.cfg", c03, lambda cls: [cls, "2", "1"], "map"),
-            ("MC_VecBag.tla", "VecBag_c05.cfg", c04, lambda cls: [cls, "2"], "vector")]
-    for module, cfg, m, hargs, name in runs:
+    # (module, cfg, check module, [(variant suffix, harness args after the class)], name)
+    runs = [("MC_ListSeq.tla", "ListSeq_c05.cfg", c02, [("", [])], "list"),
+            ("MC_MapDict.tla", "MapDict_c05.cfg", c03, [("", ["2", "1", "0", "full"]), ("/highbit-keys", ["2", "1", "1", "full"])], "map"),
+            # vectors: plain str elements, and objpair(value, unique tag) elements that are EQUAL under comp yet distinguishable:
+            # right after dup the copy must equal the original slot by slot including the tags (a dup that re-sorts its copy
+            # and reverses runs of equal elements is not an equal copy)
+            ("MC_VecBag.tla", "VecBag_c05.cfg", c04, [("", ["2", "0", "0", "full"]), ("/tagged-elements", ["2", "1", "1", "full"])], "vector")]
+    for module, cfg, m, variants, name in runs:
         exe = m.harness(ctx)
         g, res = objcheck.tlc_graph(ctx, module, cfg, workers=4)
         ndup = sum(1 for i in range(g.n_edges()) if g._head[i].startswith("dup "))
         ctx.add("dup_transitions_in_container_scopes", ndup)
         for cls in LIST_CLASSES:
-            objcheck.replay_cover(ctx, g, [tok(m.INIT)], exe, "%s/%s" % (name, cls), hargs(cls), m.keyfn, walks=(0, 0), jobs=4)
+            for suffix, extra in variants:
+                objcheck.replay_cover(ctx, g, [tok(m.INIT)], exe, "%s/%s%s" % (name, cls, suffix), [cls] + extra, m.keyfn, walks=(0, 0), jobs=4)
 
 
 def run(ctx):
